@@ -144,15 +144,18 @@ Waived(st) == st.ucall /\ ~st.ufail /\ ObservedOutcome(st) = <<"cancelled", 0>>
 
 \* inputs whose own completion had not even begun when the deciding call returned
 PendingAt(st, d) == {j \in Inputs(st) \ {d} : j \notin Completed(st) \/ CallOf(st, j) > ERet(st, d)}
-\* ... got their cancel() request within the deciding call.  With two nested combinators the inner one may have been
-\* decided by another completion k that overlaps the outer decider's (the outer's cancel() of the inner output is then
-\* refused, rightly): the inner losers get their request within k's call - "as soon as the [inner] output is decided"
-LosersCancelledBy(st, d) ==
-  \A j \in PendingAt(st, d) :
-     /\ Has(st.carr, j)
-     /\ \/ st.carr[j] < ERet(st, d)
-        \/ /\ st.nested
-           /\ \E k \in (Completed(st) \cap Inputs(st)) \ {d, j} : CallOf(st, k) < ERet(st, d) /\ st.carr[j] < ERet(st, k)
+LosersCancelledBy(st, d) == \A j \in PendingAt(st, d) : Has(st.carr, j) /\ st.carr[j] < ERet(st, d)
+
+\* Two nested combinators op(op(..), ..) are judged as ONE fold - sound as long as the completions of the inputs do not
+\* overlap: the fold is associative and idempotent over a sequence.  When two completion calls overlap, the inner
+\* operation may be decided (under its lock) by a call that publishes the inner output only later: a third input that
+\* completes in between is absorbed by the already decided inner operation, the outer one is decided by a later input,
+\* and the inner losers get their cancel() within the inner decider's call - every one of the two operations behaves
+\* as the property says, their composition is not the flat fold over the real-time order.  Not judged then.
+NestedRace(st) ==
+  /\ st.nested
+  /\ \E i, j \in Completed(st) \cap Inputs(st) :
+        i # j /\ ~(RetOf(st, i) < CallOf(st, j)) /\ ~(RetOf(st, j) < CallOf(st, i))
 
 \* every input still pending when the output was cancelled got a cancel() request: an input whose own completion only
 \* began after the client's cancel() of the output had returned True must have received one (completing later by
@@ -179,9 +182,9 @@ Clauses(st, e) ==
      <<"C15_CompletionReturns",
         (e.ev = "BlockedAtEnd" /\ st.op \in ZipOps) => e.s # "acquire">>,
      <<"C14_Fold",
-        AtEnd(st, e, BoolOps) => (Waived(st) \/ ObservedOutcome(st) \in Expected(st))>>,
+        AtEnd(st, e, BoolOps) => (Waived(st) \/ NestedRace(st) \/ ObservedOutcome(st) \in Expected(st))>>,
      <<"C14_LosersCancelled",
-        (AtEnd(st, e, BoolOps) /\ ~Waived(st) /\ ObservedOutcome(st) \in Expected(st)
+        (AtEnd(st, e, BoolOps) /\ ~Waived(st) /\ ~NestedRace(st) /\ ObservedOutcome(st) \in Expected(st)
             /\ ObservedOutcome(st) # <<"pending", 0>>) =>
           \E d \in Deciders(st) : OutcomeOf(st, d) = ObservedOutcome(st) /\ LosersCancelledBy(st, d)>>,
      <<"C14_OutputCancelFansOut",
